@@ -2,13 +2,21 @@
 
 Theorems: coq/C18/Properties_C18.v about the Mech model of the run-time loader as repaired by the fix:
 commits e75028a / 7f2ae2b / 871ed77 / a650333 (Interpreter::handle_import_statement incl. the execution of a
-module's own imports + sync_impl_definitions_from_parser + register_impl_definition): only_exports_visible,
-loaded_modules_are_complete (transitive imports loaded, exports bound), import_idempotent / import_again_is_noop,
-same_modules_loaded + import_order_independent(+_diamond), imported_like_inlined (table level),
+module's own imports and the import-time evaluation of initialisers + sync_impl_definitions_from_parser +
+register_impl_definition): only_exports_visible, loaded_modules_are_complete (transitive imports loaded, exports
+bound), initialiser_sees_imports / initialiser_value_local, import_idempotent / import_again_is_noop,
+same_modules_loaded + import_order_independent(+_diamond, +_layered), imported_like_inlined (table level),
 dotted_path_resolution, former_witnesses_repaired; one `_refuted` statement (hidden impl blocks) = known finding.
 
+Initialisers of exported variables are evaluated AT IMPORT TIME: the model evaluates them (variables, qualified
+names, enum members, late-bound calls of side-effect-free functions) against the tables of that moment
+(initialiser_sees_imports, initialiser_value_local, import_order_independent_layered for modules that read what
+they import).
+
 Tie (every run): generated module trees are written into a scratch directory (nested directories, the
-program is run with cwd there) and
+program is run with cwd there; modules with imports initialise exports from the exports of the modules they import -
+directly, through a chain, through a diamond -, the program imports only the outer module, everything in every order,
+or what is loaded anyway in addition) and
   A. table agreement: the extracted model (bin/c18_model) predicts, for the importing program, which
      names are bound to which definition (functions, qualified names, constants, globals, enums,
      typedefs, structs incl. array members, constructors, methods, destructors) - including everything
@@ -36,28 +44,41 @@ LEVEL = "proof"
 META = {
     "category": "proof",
     "technique": "Coq proofs about a function-by-function Gallina model of the run-time module loader (visibility frame lemmas, "
-                 "loaded_modules invariant, commutation of registration steps lifted to permutations, simulation import = inlined) "
-                 "+ extracted-model differential run against the real interpreter on generated module trees",
+                 "loaded_modules invariant, history invariant for import-time initialisers, commutation of registration steps with "
+                 "read/write footprints lifted to permutations, completion-order normal form for modules that read what they import, "
+                 "simulation import = inlined) + extracted-model differential run against the real interpreter on generated module trees",
     "text": "Machine-checked theorems about a Gallina model of Interpreter::handle_import_statement / "
             "sync_impl_definitions_from_parser / register_impl_definition as repaired (path resolution incl. the 8 search locations, "
-            "export filter, recursive execution of a module's own imports with the module marked loaded first, registration into the "
-            "function/struct/interface/typedef/variable/enum/impl/constructor/destructor/impl-static tables, qualified names, "
-            "loaded_modules): a changed binding always stems from an exported declaration (or an impl block) of a module this import "
-            "loaded; every loaded module is complete (its own imports loaded, its exports bound); a repeated import anywhere in a "
-            "sequence is a no-op; two successful permuted import sequences load the same modules and, for modules with disjoint (or "
-            "identical, for diamonds) registration steps, yield tables equal as maps; an import equals pasting every loaded file once "
-            "as local declarations on all unqualified names; the recursion bound of the model is immaterial. One law is refuted on the "
-            "faithful model (hidden impl blocks are visible; all of stdlib relies on it). The model is tied to the code on every run: "
-            "all import DAGs over <=3 (quick) / <=5 (thorough) generated modules in nested directories, import lists not closed under "
-            "the modules' own imports, every permutation and duplications, run on the real binary; the model's predicted bindings are "
-            "checked name by name (positive uses + one undefined-name probe per unbound name) and the importing program is compared "
-            "with its inlined single-file form and all permuted/duplicated variants; former defect witnesses are kept as corpus.",
+            "export filter, recursive execution of a module's own imports where the import statement stands with the module marked "
+            "loaded first, evaluation of the initialisers of exported variables at import time against the tables of that moment - "
+            "variables, qualified names, enum members, late-bound calls -, registration into the function/struct/interface/typedef/"
+            "variable/enum/impl/constructor/destructor/impl-static tables, qualified names, loaded_modules): a changed binding always "
+            "stems from an exported declaration (or an impl block) of a module this import loaded; every loaded module is complete (its "
+            "own imports loaded, its exports bound); every initialiser is evaluated in a state in which the modules its file imports "
+            "before it are loaded and complete and the file's preceding exports are bound, and its value depends only on the names it "
+            "mentions; a repeated import anywhere in a sequence is a no-op; two successful permuted import sequences load the same "
+            "modules and yield tables equal as maps for modules with disjoint (or identical, for diamonds) registration steps that do "
+            "not read each other's names, and also for modules that DO read what they import (acyclic imports, imports first, every "
+            "non-commuting pair connected by an import statement: chains, diamonds with initialisers); an import equals pasting every "
+            "loaded file once as local declarations on all unqualified names (initialisers included); the recursion bound of the model "
+            "is immaterial. One law is refuted on the faithful model (hidden impl blocks are visible; all of stdlib relies on it). The "
+            "model is tied to the code on every run: all import DAGs over <=3 (quick) / <=5 (thorough) generated modules plus 4-module "
+            "chains/diamonds in nested directories, exports initialised from the exports of imported modules (directly, through a "
+            "chain, through calls), import lists not closed under the modules' own imports, every permutation, duplications and "
+            "supersets by modules loaded anyway, run on the real binary; the model's predicted bindings AND VALUES are checked name by "
+            "name (positive uses + one undefined-name probe per unbound name) and the importing program is compared with its inlined "
+            "single-file form and all permuted/duplicated variants; modules importing each other with clashing names; selective imports; "
+            "former defect witnesses are kept as corpus.",
     "note": "Trusted: Coq kernel (vm_compute for the refutation witness/examples), no axioms (Print Assumptions: closed); extraction via "
             "ExtrOcamlBasic+ExtrOcamlString; the model is hand-written and tied by differential testing only. NOT modelled: the "
             "parse-time path RecursiveParser::processImport/resolveModulePath (only its hand-over of transitive impl blocks), ownership "
-            "transfer of impl nodes, selective imports/aliases, generic-name mangling. imported_like_inlined is a table-level statement; "
-            "behavioural equality (statics included) is tested (oracle B), not proved. import_order_independent is stated for two "
-            "successful loads (error symmetry is not proved). Cyclic imports (SIGSEGV at parse time) are outside the model.",
+            "transfer of impl nodes, module aliases, generic-name mangling, side effects of functions called from initialisers (the "
+            "model's functions are expressions; a call's candidate bodies are the declarations of that name in the file system). "
+            "Selective imports reach the model by translation of the file system. imported_like_inlined is a table-level statement; "
+            "behavioural equality (statics included) is tested (oracle B), not proved; where the single-file program itself is "
+            "defective (calls / non-const reads in file-scope initialisers: two known findings) the inlined comparison is skipped. "
+            "import_order_independent* are stated for two successful loads (error symmetry is not proved). Cyclic imports are outside "
+            "the model's correspondence (parse-time failure).",
 }
 
 # ------------------------------------------------------------------ abstract cases
@@ -68,8 +89,48 @@ META = {
 #  ("N", e, name, [method])
 #  ("M", e, iface|None, struct, [(method, body, refs)], [(arity, body)], dtor|None, [static])
 #  ("T", e, name, target)
-#  ("V", e, name, const, init|None)
+#  ("V", e, name, const, init|None)     init: int literal or an expression in the model syntax (str):
+#                                       term{+term}, term = INT | a | $name | #Enum:Member | @f(expr)
+#  ("H", e, name, body, expr)           side-effect-free function `int name(int a) { return <expr>; }`
 #  ("E", e, name, [(member, value)])
+
+
+def expr_terms(text):
+    out, lvl, start = [], 0, 0
+    for i, ch in enumerate(text):
+        if ch == "(":
+            lvl += 1
+        elif ch == ")":
+            lvl -= 1
+        elif ch == "+" and lvl == 0:
+            out.append(text[start:i])
+            start = i + 1
+    out.append(text[start:])
+    return out
+
+
+def expr_to_cb(text, inline=False):
+    """model-syntax expression -> Cb source; inline=True: qualified variable names lose the module prefix"""
+    res = []
+    for t in expr_terms(text):
+        if t == "a" or t.isdigit():
+            res.append(t)
+        elif t[0] == "$":
+            res.append(t[1:].rsplit(".", 1)[-1] if inline else t[1:])
+        elif t[0] == "#":
+            en, m = t[1:].split(":")
+            res.append("%s::%s" % (en, m))
+        elif t[0] == "@":
+            i = t.index("(")
+            f = t[1:i].rsplit(".", 1)[-1] if inline else t[1:i]
+            res.append("%s(%s)" % (f, expr_to_cb(t[i + 1:-1], inline)))
+        else:
+            raise ValueError(text)
+    return " + ".join(res)
+
+
+def expr_names(text, sigil):
+    return re.findall(re.escape(sigil) + r"([A-Za-z0-9_.]+)", text)
 
 
 def model_stmt(s):
@@ -79,6 +140,8 @@ def model_stmt(s):
     e = "1" if s[1] else "0"
     if k == "F":
         return "F %s %s %d" % (e, s[2], s[3])
+    if k == "H":
+        return "F %s %s %d %s" % (e, s[2], s[3], s[4])
     if k == "S":
         return "S %s %s %d %s" % (e, s[2], 1 if s[3] else 0, " ".join("%s:%s" % (m, "-" if x is None else x) for m, x in s[4]))
     if k == "N":
@@ -90,7 +153,7 @@ def model_stmt(s):
     if k == "T":
         return "T %s %s %s" % (e, s[2], s[3])
     if k == "V":
-        return "V %s %s %d %s" % (e, s[2], 1 if s[3] else 0, "-" if s[4] is None else s[4])
+        return "V %s %s %d %s" % (e, s[2], 1 if s[3] else 0, "-" if s[4] is None else str(s[4]))
     if k == "E":
         return "E %s %s %s" % (e, s[2], " ".join("%s:%d" % m for m in s[3]))
     raise ValueError(s)
@@ -101,6 +164,8 @@ def render_stmt(s, keep_export=True):
     if k == "I":
         return "import %s;" % s[1]
     ex = "export " if (s[1] and keep_export) else ""
+    if k == "H":
+        return "%sint %s(int a) { return %s; }" % (ex, s[2], expr_to_cb(s[4], inline=not keep_export))
     if k == "F":
         refs = "".join(" + " + r for r in s[4])
         if len(s) > 5 and s[5]:      # takes a struct (declared in this or an imported module) by value
@@ -130,7 +195,10 @@ def render_stmt(s, keep_export=True):
     if k == "T":
         return "%stypedef %s %s;" % (ex, s[3], s[2])
     if k == "V":
-        return "%s%sint %s%s;" % (ex, "const " if s[3] else "", s[2], "" if s[4] is None else " = %d" % s[4])
+        if len(s) > 5 and s[5] == "string":
+            return '%s%sstring %s = "s%d";' % (ex, "const " if s[3] else "", s[2], s[4])
+        init = "" if s[4] is None else " = %s" % (s[4] if isinstance(s[4], int) else expr_to_cb(s[4], inline=not keep_export))
+        return "%s%sint %s%s;" % (ex, "const " if s[3] else "", s[2], init)
     if k == "E":
         return "%senum %s { %s };" % (ex, s[2], ", ".join("%s = %d" % m for m in s[3]))
     raise ValueError(s)
@@ -159,17 +227,42 @@ def gen_modules(rng, n, edges, defects=(), prefix=""):
         if stmts and rng.random() < 0.3:
             stmts.append(stmts[0])                                    # a module importing twice
         pool_val, pool_fun, pool_str = [], [], []
-        for j in range(i):
-            if (i, j) in edges:
-                pool_val += exported[j]["val"]
-                pool_fun += exported[j]["fun"]
-                if not prefix:          # (run-time-only placement: the module's own parser cannot see imported types)
-                    pool_str += exported[j]["str"]
+        # initialiser pools (model syntax): constants / enum members, non-const globals, pure functions that the
+        # module's own imports make available when the initialiser is evaluated (at import time)
+        pool_c, pool_g, pool_h = [], [], []
+        direct = [j for j in range(i) if (i, j) in edges]
+        reach = []                       # modules loaded through the imports (a chain: not imported by this file itself)
+        for j in direct:
+            for x in exported[j]["reach"]:
+                if x not in direct and x not in reach:
+                    reach.append(x)
+        for j in direct:
+            pool_val += exported[j]["val"]
+            pool_fun += exported[j]["fun"]
+            if not prefix:          # (run-time-only placement: the module's own parser cannot see imported types)
+                pool_str += exported[j]["str"]
+            pool_c += exported[j]["c"]
+            pool_g += exported[j]["g"]
+            pool_h += exported[j]["h"]
+            if "." not in mods[j]["modpath"] and rng.random() < 0.5:      # qualified names m.K of a single-segment module
+                pool_c += ["$%s.%s" % (mods[j]["modpath"], x[1:]) for x in exported[j]["c"] if x[0] == "$"]
+        if reach and rng.random() < 0.5:
+            for j in reach:
+                pool_c += exported[j]["c"]
+                pool_h += exported[j]["h"]
         own_val, own_fun, own_str = [], [], []
+        own_c, own_g, own_h = [], [], []
         nitems = rng.randint(2, 5)
-        kinds = [rng.choice("FFFPSSEKVTG") for _ in range(nitems)]
+        kinds = [rng.choice("FFFPSSEKVTGCCWHZ") for _ in range(nitems)]
         if i == 0 and "V" not in kinds:
             kinds.append("V")
+        if i == 0 and not ({"K", "C", "E"} & set(kinds)):
+            kinds.insert(0, "K")
+        if direct:
+            # a module with imports initialises at least one export from what it imports
+            kinds += [rng.choice("CW")] + ([rng.choice("CWH")] if rng.random() < 0.6 else [])
+        if rng.random() < 0.5:
+            kinds.append("H")
         for j, kd in enumerate(kinds):
             e = rng.random() < 0.65
             ident = 100 * (i + 1) + 10 * j
@@ -183,8 +276,56 @@ def gen_modules(rng, n, edges, defects=(), prefix=""):
                     t, x = rng.choice(cand)
                     out.append(x if t == "v" else "%s(a)" % x)
                 return out
+            def terms(pc, pg, ph, kmax=3, arg="2"):
+                """1..kmax terms over the pools; returns the list (model syntax)"""
+                out = []
+                for _ in range(rng.randint(1, kmax)):
+                    r = rng.random()
+                    if ph and r < 0.3:
+                        inner = arg if (rng.random() < 0.6 or not pc) else rng.choice(pc)
+                        out.append("@%s(%s)" % (rng.choice(ph), inner))
+                    elif pg and r < 0.5:
+                        out.append(rng.choice(pg))
+                    elif pc:
+                        out.append(rng.choice(pc))
+                return out
             if kd == "P" and not (pool_str + own_str):
                 kd = "F"
+            if kd == "Z":
+                # a string constant / global (its own copy path in handle_import_statement: str_value); the model carries
+                # the number, the text is "s<number>"
+                stmts.append(("V", e, "z%d_%d" % (i, j), rng.random() < 0.6, ident + 9, "string"))
+                continue
+            if kd == "C":
+                nm = "C%d_%d" % (i, j)
+                if e:
+                    # a constant: constants / enum members (what a single file may use at that point), sometimes a call
+                    # or a non-const global (-> known findings about the single-file order, no inlined comparison)
+                    ts = terms(pool_c + own_c, (pool_g + own_g) if rng.random() < 0.15 else [],
+                               (pool_h + own_h) if rng.random() < 0.35 else [])
+                    stmts.append(("V", e, nm, True, "+".join([str(ident + 1)] + ts)))
+                    own_c.append("$" + nm)
+                    own_val.append(nm)
+                else:
+                    stmts.append(("V", e, nm, True, ident + 1))
+                continue
+            if kd == "W":
+                nm = "w%d_%d" % (i, j)
+                if e:
+                    ts = terms(pool_c + own_c, pool_g + own_g, (pool_h + own_h) if rng.random() < 0.35 else [])
+                    stmts.append(("V", e, nm, False, "+".join([str(ident + 2)] + ts)))
+                    own_g.append("$" + nm)
+                    own_val.append(nm)
+                else:
+                    stmts.append(("V", e, nm, False, ident + 2))
+                continue
+            if kd == "H":
+                nm = "h%d_%d" % (i, j)
+                ts = terms(pool_c + own_c, pool_g + own_g, pool_h + own_h, 2, "a") if e else []
+                stmts.append(("H", e, nm, ident, "+".join(["a", str(ident)] + ts)))
+                if e:
+                    own_h.append(nm)
+                continue
             if kd == "P":
                 nm = "p%d_%d" % (i, j)
                 stmts.append(("F", e, nm, ident, [r for r in refs() if "(a)" not in r] if e else [], rng.choice(pool_str + own_str)))
@@ -198,16 +339,19 @@ def gen_modules(rng, n, edges, defects=(), prefix=""):
                 stmts.append(("V", e, nm, True, ident + 1))
                 if e:
                     own_val.append(nm)
+                    own_c.append("$" + nm)
             elif kd == "V":
                 nm = "g%d_%d" % (i, j)
-                stmts.append(("V", e, nm, False, ident + 2))
+                stmts.append(("V", e, nm, False, (ident + 2) if rng.random() < 0.85 else None))
                 if e:
                     own_val.append(nm)
+                    own_g.append("$" + nm)
             elif kd == "E":
                 nm = "E%d_%d" % (i, j)
                 stmts.append(("E", e, nm, [("EA", ident + 3), ("EB", ident + 4)]))
                 if e:
                     own_val.append("%s::EB" % nm)
+                    own_c.append("#%s:EB" % nm)
             elif kd == "T":
                 stmts.append(("T", e, "T%d_%d" % (i, j), "int"))
             elif kd == "G":
@@ -236,7 +380,8 @@ def gen_modules(rng, n, edges, defects=(), prefix=""):
                         ctors.append((2, ident + 7))
                     dtor = ident + 8 if rng.random() < 0.5 else None
                     stmts.append(("M", impl_e, None, sn, [], ctors, dtor, []))
-        exported[i] = {"val": own_val, "fun": own_fun, "str": own_str}
+        exported[i] = {"val": own_val, "fun": own_fun, "str": own_str, "c": own_c, "g": own_g, "h": own_h,
+                       "reach": direct + reach}
         mods.append({"modpath": modpath, "path": prefix + file_path(modpath), "stmts": stmts,
                      "imports": sorted(set(j for j in range(i) if (i, j) in edges))})
     return mods
@@ -275,7 +420,7 @@ def parse_model(lines):
         w = l.split(" ")
         if w[0] == "R":
             cur = {"ok": w[1] == "ok", "err": w[2:] if w[1] != "ok" else None, "F": {}, "S": {}, "N": {}, "T": {}, "V": {},
-                   "E": {}, "D": {}, "C": {}, "IM": [], "ST": [], "L": []}
+                   "E": {}, "D": {}, "C": {}, "IM": [], "ST": [], "L": [], "H": {}}
         elif w[0] == "END":
             res.append(cur)
             cur = None
@@ -291,6 +436,8 @@ def parse_model(lines):
             cur["V"][w[1]] = (w[2] == "1", None if w[3] == "-" else int(w[3]))
         elif w[0] == "E":
             cur["E"][w[1]] = [(m.split(":")[0], int(m.split(":")[1])) for m in w[2].split(",")] if len(w) > 2 else []
+        elif w[0] == "H":
+            cur["H"][w[1]] = None if w[2] == "!" else int(w[2])
         elif w[0] == "D":
             cur["D"][w[1]] = int(w[2])
         elif w[0] == "C":
@@ -328,7 +475,7 @@ def is_mangled(k, tab):
     return False
 
 
-def build_main(tab, single_seg_mods, reimport=None, blind=False, fparams=None, parse_visible=None):
+def build_main(tab, single_seg_mods, reimport=None, blind=False, fparams=None, parse_visible=None, strvars=()):
     # parse_visible: type names the parser of the running file knows (exports of the modules it imports itself);
     # generic structs and interface-typed variables can only be written with those (None = all)
     """main() that uses every name the model says is bound; returns (text, expectations) where
@@ -345,8 +492,9 @@ def build_main(tab, single_seg_mods, reimport=None, blind=False, fparams=None, p
         c, v = tab["V"][k]
         if "." in k and k.rsplit(".", 1)[0] not in single_seg_mods:
             continue
-        if v is not None:
-            block(['println("@v", %s);' % k], "@v %d" % v, None, "variable " + k)
+        # the value the model computed for the initialiser (an uninitialised global reads 0)
+        block(['println("@v", %s);' % k], ("@v s%d" if k.rsplit(".", 1)[-1] in strvars else "@v %d") % (v if v is not None else 0),
+              None, "variable " + k)
     for k in sorted(tab["E"]):
         if tab["E"][k]:
             m, v = tab["E"][k][-1]
@@ -354,8 +502,14 @@ def build_main(tab, single_seg_mods, reimport=None, blind=False, fparams=None, p
     for n, k in enumerate(sorted(tab["T"])):
         if tab["T"][k] == "int":
             block(["%s tv%d = 5; println(\"@t\", tv%d + 1);" % (k, n, n)], "@t 6", None, "typedef " + k)
+    for k in sorted(tab["H"]):
+        if "." in k and k.rsplit(".", 1)[0] not in single_seg_mods:
+            continue
+        if tab["H"][k] is not None:
+            # side-effect-free function: the model evaluates k(3) on the final tables (late-bound names included)
+            block(['println("@h", %s(3));' % k], "@h %d" % tab["H"][k], None, "pure function " + k)
     for k in sorted(tab["F"]):
-        if k == "main" or is_mangled(k, tab):
+        if k == "main" or is_mangled(k, tab) or k in tab["H"]:
             continue
         if "." in k and k.rsplit(".", 1)[0] not in single_seg_mods:
             continue
@@ -417,7 +571,7 @@ def build_main(tab, single_seg_mods, reimport=None, blind=False, fparams=None, p
         tail.append('  println("@r", %s);' % var)
         exp.append((None, None, "re-import of %s at run time keeps %s" % (mod, var)))
     for k in sorted(tab["V"]):
-        if "." not in k and tab["V"][k][1] is not None:
+        if "." not in k:
             tail.append('  println("=v", %s);' % k)
     return "void main() {\n" + "\n".join(body + tail) + "\n}\n", exp
 
@@ -468,7 +622,7 @@ def negative_probes(all_files, tab, single_seg_mods):
     for path, stmts in all_files:
         for s in stmts:
             k = s[0]
-            if k == "F" and s[2] not in tab["F"]:
+            if k in ("F", "H") and s[2] not in tab["F"]:
                 out.append(("function " + s[2], 'println(%s(1));' % s[2]))
             elif k == "V" and s[2] not in tab["V"]:
                 out.append(("variable " + s[2], 'println(%s);' % s[2]))
@@ -496,7 +650,7 @@ def negative_probes(all_files, tab, single_seg_mods):
         if "/" in mod or mod not in single_seg_mods:
             continue
         for s in stmts:
-            if s[0] == "F" and ("%s.%s" % (mod, s[2])) not in tab["F"]:
+            if s[0] in ("F", "H") and ("%s.%s" % (mod, s[2])) not in tab["F"]:
                 out.append(("qualified function %s.%s" % (mod, s[2]), 'println(%s.%s(1));' % (mod, s[2])))
     return out
 
@@ -536,11 +690,26 @@ def first_err(e):
     return ""
 
 
+def model_error_text(err):
+    """what the implementation prints for the error the model predicts"""
+    if err[0] == "open":
+        return "Failed to open module file: %s (searched: %s)" % tuple(err[1:3])
+    if err[0] == "undefvar":
+        return "Undefined variable: %s" % err[1]
+    if err[0] == "undeffunc":
+        return "Undefined function: %s" % err[1]
+    if err[0] == "undefenum":
+        return "ndefined"
+    return "Method name conflict"
+
+
 # ------------------------------------------------------------------ one graph case (A + B)
 def make_graph_case(seed, tag, k, n, edges, defects=(), prefix=""):
     rng = rng_for(seed, "c18-graph", tag, k)
     mods = gen_modules(rng, n, edges, defects, prefix)
     roots = [i for i in range(n) if rng.random() < 0.7] or [n - 1]
+    if n > 1 and rng.random() < 0.25:
+        roots = [n - 1]                                       # only the outermost module
     if rng.random() < 0.6:
         imports_idx = roots                                   # the modules' own imports are loaded with them (7f2ae2b)
     else:
@@ -550,14 +719,36 @@ def make_graph_case(seed, tag, k, n, edges, defects=(), prefix=""):
     local = []
     # a local function of the importer that calls an imported exported function / reads a constant
     vis_f = [s[2] for i in closure(mods, imports_idx) for s in mods[i]["stmts"] if s[0] == "F" and s[1] and len(s) <= 5]
-    vis_v = [s[2] for i in closure(mods, imports_idx) for s in mods[i]["stmts"] if s[0] == "V" and s[1] and s[4] is not None]
+    vis_v = [s[2] for i in closure(mods, imports_idx) for s in mods[i]["stmts"] if s[0] == "V" and s[1] and s[4] is not None and len(s) <= 5]
     if vis_f or vis_v:
         refs = ([rng.choice(vis_f) + "(a)"] if vis_f else []) + ([rng.choice(vis_v)] if vis_v else [])
         local.append(("F", False, "lf_main", 990, refs))
     if rng.random() < 0.5:
-        local.append(("V", False, "lk_main", True, 991))
-    return {"kind": "graph", "mods": mods, "base": base, "local": local, "defects": list(defects), "prefix": prefix,
+        # a constant of the importer itself, initialised from imported constants (evaluated after all imports)
+        vis_c = [s[2] for i in closure(mods, imports_idx) for s in mods[i]["stmts"] if s[0] == "V" and s[1] and s[3] and s[4] is not None and len(s) <= 5]
+        init = 991 if (not vis_c or rng.random() < 0.4) else "991+" + "+".join("$" + rng.choice(vis_c) for _ in range(rng.randint(1, 2)))
+        local.append(("V", False, "lk_main", True, init))
+    case = {"kind": "graph", "mods": mods, "base": base, "local": local, "defects": list(defects), "prefix": prefix,
             "n": n, "edges": sorted(edges), "seed_tag": [tag, k]}
+    case["no_inline"] = no_inline_reasons(case)
+    return case
+
+
+def no_inline_reasons(case):
+    """shapes of the known findings C18-init-call-single-file / C18-const-init-reads-global-single-file among the modules the
+    program loads: there the single-file (inlined) program is not a reference - it fails where the import works"""
+    mods = case["mods"]
+    loaded = closure(mods, sorted(set(case["base"])))
+    nonconst = set(s[2] for m in mods for s in m["stmts"] if s[0] == "V" and not s[3])
+    why = set()
+    for i in loaded:
+        for s in mods[i]["stmts"]:
+            if s[0] == "V" and isinstance(s[4], str):
+                if "@" in s[4]:
+                    why.add("call-in-initialiser")
+                if s[3] and any(x.rsplit(".", 1)[-1] in nonconst for x in expr_names(s[4], "$")):
+                    why.add("const-reads-global")
+    return sorted(why)
 
 
 def case_files(case):
@@ -589,6 +780,14 @@ def variants_of(case, rng, tier):
     for p in perms:
         if list(p) != base:
             vs.append(("perm", list(p)))
+    deps = [i for i in closure(case["mods"], sorted(set(base))) if i not in base]
+    if deps:
+        # importing what is loaded anyway (through the imported modules) changes nothing, wherever it stands
+        vs.append(("plus-deps-front", deps + base))
+        vs.append(("plus-deps-back", base + list(reversed(deps))))
+        mixed = deps + base
+        rng.shuffle(mixed)
+        vs.append(("plus-deps-mixed", mixed))
     if base:
         vs.append(("dup-adjacent", [base[0]] + base))
         vs.append(("dup-all", base + base))
@@ -614,7 +813,7 @@ def run_graph_case(impl, case, tab, tier, seed, oracle=True):
         if not tab["ok"]:
             rc, o, e = tree.run(impl, program_text(case["base"], modpaths, case["local"], "void main() { println(1); }\n"))
             runs += 1
-            want = "Failed to open module file: %s (searched: %s)" % tuple(tab["err"][1:3]) if tab["err"][0] == "open" else "Method name conflict"
+            want = model_error_text(tab["err"])
             if rc != 1 or want not in e:
                 fails.append(("corr-error", {"model": tab["err"], "rc": rc, "stderr": e[-400:]},
                               "model predicts the import error '%s', implementation: rc=%d %s" % (want, rc, first_err(e)), False))
@@ -623,7 +822,7 @@ def run_graph_case(impl, case, tab, tier, seed, oracle=True):
         reimp = None
         for i in case["base"]:
             for s in mods[i]["stmts"]:
-                if s[0] == "V" and s[1] and not s[3] and s[2] in tab["V"]:
+                if s[0] == "V" and s[1] and not s[3] and s[2] in tab["V"] and len(s) <= 5:
                     reimp = (s[2], modpaths[i])
                     break
             if reimp:
@@ -631,8 +830,9 @@ def run_graph_case(impl, case, tab, tier, seed, oracle=True):
         blind = bool(case.get("prefix"))
         fparams = {st[2]: st[5] for m in mods for st in m["stmts"] if st[0] == "F" and len(st) > 5 and st[5]}
         pv = set(st[2] for i in set(case["base"]) for st in mods[i]["stmts"] if st[0] in ("S", "N") and st[1])
-        main_text, exp = build_main(tab, single, reimport=(reimp + (True,)) if reimp else None, blind=blind, fparams=fparams, parse_visible=pv)
-        main_inl, _ = build_main(tab, set(), reimport=(reimp + (False,)) if reimp else None, blind=blind, fparams=fparams, parse_visible=pv)
+        strvars = set(st[2] for m in mods for st in m["stmts"] if st[0] == "V" and len(st) > 5 and st[5] == "string")
+        main_text, exp = build_main(tab, single, reimport=(reimp + (True,)) if reimp else None, blind=blind, fparams=fparams, parse_visible=pv, strvars=strvars)
+        main_inl, _ = build_main(tab, set(), reimport=(reimp + (False,)) if reimp else None, blind=blind, fparams=fparams, parse_visible=pv, strvars=strvars)
         rng = rng_for(seed, "c18-variants", *case["seed_tag"])
         vs = variants_of(case, rng, tier)
         outs = []
@@ -641,13 +841,31 @@ def run_graph_case(impl, case, tab, tier, seed, oracle=True):
             runs += 1
             outs.append((name, imps, rc, o, e))
         name0, imps0, rc0, o0, e0 = outs[0]
-        # A. table agreement on the base variant
-        if rc0 != 0:
-            # evaluate the property's own oracle on this input: does the inlined single file run?
-            order0 = closure(mods, sorted(set(imps0)))
-            rci, oi, ei = tree.run(impl, inlined_text(case, order0, main_inl))
+        # the same imports executed as statements at the beginning of main (Interpreter::execute_statement ->
+        # handle_import_statement): possible when no declaration of the importer is initialised from an import
+        late = None
+        if not any(st[0] == "V" and isinstance(st[4], str) for st in case["local"]):
+            late_main = main_text.replace("void main() {\n", "void main() {\n" + "".join("  import %s;\n" % modpaths[i] for i in imps0), 1)
+            rcl, ol, el = tree.run(impl, program_text([], modpaths, case["local"], late_main))
             runs += 1
-            if rci == 0 and oracle:
+            late = (rcl, ol, el)
+        # A. table agreement on the base variant
+        no_inline = case.get("no_inline") or []
+        if rc0 != 0:
+            # evaluate the property's own oracle on this input: does another order of the same imports run, does the
+            # inlined single file run?
+            good = [(name, imps) for name, imps, rc, o, e in outs[1:] if rc == 0]
+            order0 = closure(mods, sorted(set(imps0)))
+            rci = None
+            if not no_inline:
+                rci, oi, ei = tree.run(impl, inlined_text(case, order0, main_inl))
+                runs += 1
+            if oracle and good:
+                fails.append(("oracle-variant", {"variant": good[0][0], "imports": [modpaths[i] for i in good[0][1]],
+                                                 "base": [modpaths[i] for i in imps0], "rc_base": rc0, "stderr_base": e0[-600:]},
+                              "import list %s fails (rc=%d %s) while %s (%s) runs" % (
+                                  [modpaths[i] for i in imps0], rc0, first_err(e0), [modpaths[i] for i in good[0][1]], good[0][0]), True))
+            elif rci == 0 and oracle:
                 fails.append(("oracle-inlined", {"imports": [modpaths[i] for i in imps0], "rc_import": rc0, "rc_inlined": rci,
                                                  "stderr_import": e0[-600:], "stdout_import": o0[-300:]},
                               "importing program fails (rc=%d %s) while the single-file inlined program runs" % (rc0, first_err(e0)), True))
@@ -688,21 +906,29 @@ def run_graph_case(impl, case, tab, tier, seed, oracle=True):
                                   "import list %s (%s) behaves differently from %s: %s" % (
                                       [modpaths[i] for i in imps], name, [modpaths[i] for i in imps0], first_diff(o0, o)), True))
                     break
+            if late is not None:
+                nvar += 1
+                if late[0] != rc0 or late[1] != o0:
+                    fails.append(("oracle-late-import", {"imports": [modpaths[i] for i in imps0], "rc": late[0],
+                                                         "stdout_diff": first_diff(o0, late[1]), "stderr": late[2][-300:]},
+                                  "the imports %s executed at the beginning of main behave differently from the same imports at "
+                                  "file level: %s" % ([modpaths[i] for i in imps0], first_diff(o0, late[1])), True))
             order = closure(mods, sorted(set(imps0)))
             # inlined form needs the same bindings minus qualified names: rebuild the base run without them
-            if single:
-                main_nq, _ = build_main(tab, set(), reimport=(reimp + (True,)) if reimp else None, blind=blind, fparams=fparams, parse_visible=pv)
-                rcq, oq, eq = tree.run(impl, program_text(imps0, modpaths, case["local"], main_nq))
+            if not no_inline:
+                if single:
+                    main_nq, _ = build_main(tab, set(), reimport=(reimp + (True,)) if reimp else None, blind=blind, fparams=fparams, parse_visible=pv, strvars=strvars)
+                    rcq, oq, eq = tree.run(impl, program_text(imps0, modpaths, case["local"], main_nq))
+                    runs += 1
+                else:
+                    rcq, oq, eq = rc0, o0, e0
+                rci, oi, ei = tree.run(impl, inlined_text(case, order, main_inl))
                 runs += 1
-            else:
-                rcq, oq, eq = rc0, o0, e0
-            rci, oi, ei = tree.run(impl, inlined_text(case, order, main_inl))
-            runs += 1
-            nvar += 1
-            if rci != rcq or oi != oq:
-                fails.append(("oracle-inlined", {"imports": [modpaths[i] for i in imps0], "rc_import": rcq, "rc_inlined": rci,
-                                                 "stdout_diff": first_diff(oq, oi), "stderr_inlined": ei[-300:], "stderr_import": eq[-300:]},
-                              "importing program and single-file inlined program differ: %s" % first_diff(oq, oi), True))
+                nvar += 1
+                if rci != rcq or oi != oq:
+                    fails.append(("oracle-inlined", {"imports": [modpaths[i] for i in imps0], "rc_import": rcq, "rc_inlined": rci,
+                                                     "stdout_diff": first_diff(oq, oi), "stderr_inlined": ei[-300:], "stderr_import": eq[-300:]},
+                                  "importing program and single-file inlined program differ: %s" % first_diff(oq, oi), True))
         return {"runs": runs, "failures": fails, "bindings": len(exp), "negatives": len(neg), "variants": nvar}
     finally:
         for f in fails:
@@ -722,7 +948,8 @@ def first_diff(a, b):
 
 def case_replay(case):
     return {"kind": case["kind"], "mods": case.get("mods"), "base": case.get("base"), "local": case.get("local"),
-            "defects": case.get("defects"), "seed_tag": case.get("seed_tag"), "extra": case.get("extra")}
+            "defects": case.get("defects"), "seed_tag": case.get("seed_tag"), "extra": case.get("extra"),
+            "prefix": case.get("prefix", ""), "no_inline": case.get("no_inline")}
 
 
 def graph_model_lines(case):
@@ -765,12 +992,16 @@ def make_pathform_case(modpath, place):
 
 
 def make_clash_case(rng, k):
-    """modules exporting the same names.  With both import paths active the enum binding is decided by
-    the (unmodelled) parse-time path, so enums clash only in the run-time-only placement."""
+    """modules exporting the same names, flat or importing each other (a module and the module it imports export the same
+    name: the position of the import statement among the declarations decides).  With both import paths active the enum
+    binding is decided by the (unmodelled) parse-time path, so enums clash only in the run-time-only placement.  Each module
+    also exports a constant initialised from the clashing constant KS as it is bound AT THAT MOMENT (own, another
+    module's, or not at all -> the import fails with 'Undefined variable')."""
     n = rng.randint(2, 3)
     names = ["a", "b", "c"][:n]
     files = []
     blind = rng.random() < 0.5
+    nested = rng.random() < 0.6
     for i, nm in enumerate(names):
         st = [simple_fn("same", 30 + i), ("V", True, "KS", True, 40 + i)]
         if blind:
@@ -781,19 +1012,148 @@ def make_clash_case(rng, k):
             st.append(simple_fn("only_" + nm, 60 + i))
         if rng.random() < 0.4:
             st[0] = simple_fn("same", 30 + i, exported=False)
+        if rng.random() < 0.6:
+            st.append(("V", True, "KD_" + nm, True, "%d+$KS" % (80 + i)))
+        if rng.random() < 0.4:
+            st.append(("H", True, "hs", 90 + i, "a+%d+$KS" % (90 + i)))
+            if rng.random() < 0.5:
+                st.append(("V", True, "KH_" + nm, False, "@hs(1)"))
         rng.shuffle(st)
+        if nested and i > 0:
+            tgt = names[i - 1] if rng.random() < 0.6 else names[0]
+            st.insert(rng.randint(0, len(st)), ("I", tgt))          # the import stands anywhere among the declarations
+            if rng.random() < 0.25:
+                st.insert(rng.randint(0, len(st)), ("I", rng.choice(names[:i])))
         files.append(((BLIND if blind else "") + nm + ".cb", st))
     order = names[:]
     rng.shuffle(order)
+    if nested and rng.random() < 0.5:
+        order = order[:rng.randint(1, len(order))]            # only some of them are imported by the program itself
     if rng.random() < 0.4:
         order.append(rng.choice(names))
     local = [simple_fn("same", 70, exported=False)] if rng.random() < 0.35 else []
     return {"kind": "clash", "files": files, "imports": order, "local": local, "cwd": "", "extra": {}, "seed_tag": ["clash", k]}
 
 
+def selected_files(case):
+    """the file system the model sees.  `import m { a, b };` (case["select"] = {module path: [items]}, the module is
+    imported by this one statement only) registers of m's exported declarations exactly the listed ones
+    (handle_import_statement: has_specific_items): to the model that is the module with `export` removed from the others."""
+    sel = case.get("select") or {}
+    out = []
+    for path, st in case["files"]:
+        mod = path[:-3]
+        if mod.startswith(BLIND):
+            mod = mod[len(BLIND):]
+        mod = mod.replace("/", ".")
+        if mod in sel:
+            st = [x if (x[0] in ("I", "M") or x[2] in sel[mod]) else (x[0], False) + tuple(x[2:]) for x in st]
+        out.append((path, st))
+    return out
+
+
+def make_effects_case(rng, k):
+    """initialisers with a visible side effect: every initialiser of every loaded module runs exactly once, whatever the
+    import list (diamond base <- l, r; duplicates; supersets), and a module's initialisers run after those of the modules
+    it imports.  Tested only (the model's functions have no side effects)."""
+    ids = {"eb": 1, "el": 2, "er": 3, "et": 4}
+    tick = 'export int tick%d(int a) { println("@i", a); return a; }'
+    files = {
+        "eb.cb": tick % 1 + "\nexport const int KB = tick1(10);\nexport int GB = tick1(11) + KB;\n",
+        "el.cb": "import eb;\n" + tick % 2 + "\nexport const int KL = tick2(20) + KB;\n",
+        "er.cb": "import eb;\n" + tick % 3 + "\nexport int GR = tick3(30) + GB;\nexport const int KR = tick1(31);\n",
+        "et.cb": "import el;\nimport er;\n" + tick % 4 + "\nexport const int KT = tick4(40) + KL + KR;\n",
+    }
+    deps = {"eb": [], "el": ["eb"], "er": ["eb"], "et": ["el", "er"]}
+    lines = {"eb": [10, 11], "el": [20], "er": [30, 31], "et": [40]}
+    names = ["eb", "el", "er", "et"]
+    imports = [x for x in names if rng.random() < 0.5] or [rng.choice(names)]
+    rng.shuffle(imports)
+    if rng.random() < 0.5:
+        imports.append(rng.choice(imports))
+    return {"kind": "effects", "text_files": files, "imports": imports, "deps": deps, "lines": lines,
+            "seed_tag": ["effects", k], "files": [], "late": rng.random() < 0.3}
+
+
+def run_effects_case(impl, case):
+    fails = []
+    tree = Tree(list(case["text_files"].items()))
+    try:
+        seen, order = set(), []
+
+        def visit(m):
+            if m in seen:
+                return
+            seen.add(m)
+            for d in case["deps"][m]:
+                visit(d)
+            order.append(m)
+        for m in case["imports"]:
+            visit(m)
+        want = [l for m in order for l in case["lines"][m]]         # the loader's order: dependencies first, once
+        imps = "".join("import %s;\n" % m for m in case["imports"])
+        if case.get("late"):
+            prog = 'void main() {\n%s  println("main");\n}\n' % imps
+        else:
+            prog = imps + 'void main() { println("main"); }\n'
+        rc, o, e = tree.run(impl, prog)
+        got = [l for l in o.split("\n") if l]
+        demanded = ["@i %d" % x for x in want] + ["main"]
+        if rc != 0 or got != demanded:
+            fails.append(("oracle-effects", {"case": {"kind": "effects", "text_files": case["text_files"], "imports": case["imports"],
+                                                      "deps": case["deps"], "lines": case["lines"], "late": case.get("late"),
+                                                      "seed_tag": case["seed_tag"]},
+                                             "rc": rc, "stdout": o[-400:], "stderr": e[-300:], "demanded": demanded},
+                          "imports %s: every initialiser of every loaded module must run exactly once, dependencies first: demanded %s, "
+                          "got %s (rc=%d %s)" % (case["imports"], " ".join(demanded), " ".join(got), rc, first_err(e)), True))
+        return {"runs": 1, "failures": fails, "bindings": 0, "negatives": 0, "variants": 1}
+    finally:
+        tree.close()
+
+
 def flat_model_lines(case):
     main = [("I", p) for p in case["imports"]] + list(case.get("local", [])) + [("F", False, "main", 999, [])]
-    return model_input(case["files"], main)
+    return model_input(selected_files(case), main)
+
+
+def make_selective_case(rng, k):
+    """`import sm { ... };`: a module with a nested import and exports of every kind; the selection is closed under the
+    references between the module's own exports (known finding C18-selective-import-drops-dependencies otherwise)"""
+    blind = rng.random() < 0.3
+    sb = [("V", True, "KB", True, 11), ("H", True, "hb", 12, "a+12+$KB"), ("V", True, "gb", False, 13)]
+    sm = [("I", "sb"),
+          ("V", True, "K1", True, "21+$KB"),
+          ("V", True, "K2", True, "22+$K1"),
+          ("V", True, "w3", False, "23+$KB+$gb"),
+          ("H", True, "h4", 24, "a+24+$K1"),
+          ("F", True, "f5", 25, []),
+          ("E", True, "E6", [("EA", 26), ("EB", 27)]),
+          ("T", True, "T7", "int"),
+          ("S", True, "S8", False, [("x", None), ("y", None)]),
+          ("M", True, None, "S8", [], [(1, 28)], None, []),
+          ("F", False, "hid9", 29, []),
+          ("V", True, "KZ", True, 30)]
+    deps = {"K2": ["K1"], "h4": ["K1"]}
+    names = ["K1", "K2", "w3", "h4", "f5", "E6", "T7", "S8", "KZ"]
+    items = [x for x in names if rng.random() < 0.45] or [rng.choice(names)]
+    for x in list(items):
+        for d in deps.get(x, []):
+            if d not in items:
+                items.append(d)
+    extra = []
+    if rng.random() < 0.3:
+        extra.append("hid9")                    # naming something the module does not export binds nothing
+    if rng.random() < 0.2:
+        extra.append("nosuch")
+    listed = items + extra
+    rng.shuffle(listed)
+    pre = ["import sb;"] if rng.random() < 0.3 else []
+    post = ["import sb;"] if rng.random() < 0.3 else []
+    text = "\n".join(pre + ["import sm { %s };" % ", ".join(listed)] + post)
+    imports = (["sb"] if pre else []) + ["sm"] + (["sb"] if post else [])
+    files = [((BLIND if blind else "") + "sb.cb", sb), ((BLIND if blind else "") + "sm.cb", sm)]
+    return {"kind": "selective", "files": files, "imports": imports, "import_text": text, "select": {"sm": listed},
+            "local": [], "cwd": "", "extra": {"items": listed}, "seed_tag": ["selective", k]}
 
 
 def run_flat_case(impl, case, tab):
@@ -802,12 +1162,12 @@ def run_flat_case(impl, case, tab):
     tree = Tree(files, case.get("cwd", ""))
     try:
         single = set(p for p in case["imports"] if "." not in p)
-        imports_txt = "\n".join("import %s;" % p for p in case["imports"])
+        imports_txt = case.get("import_text") or "\n".join("import %s;" % p for p in case["imports"])
         local_txt = "\n".join(render_stmt(s) for s in case.get("local", []))
         if not tab["ok"]:
             rc, o, e = tree.run(impl, imports_txt + "\nvoid main() { println(1); }\n")
             runs += 1
-            want = "Failed to open module file: %s (searched: %s)" % tuple(tab["err"][1:3])
+            want = model_error_text(tab["err"])
             if rc != 1 or want not in e or o.strip() != "":
                 fails.append(("corr-error", {"model": tab["err"], "rc": rc, "stdout": o[-200:], "stderr": e[-400:], "case": case_replay_flat(case)},
                               "model predicts '%s', implementation: rc=%d %s" % (want, rc, first_err(e) or o[-80:]), False))
@@ -827,9 +1187,13 @@ def run_flat_case(impl, case, tab):
             rc, o, e = tree.run(impl, imports_txt + '\nvoid main() { println("start"); %s }\n' % stmt)
             runs += 1
             if not (rc == 1 and o.strip() == "start" and any(u in e for u in UNDEF)):
-                fails.append(("corr-hidden", {"what": what, "stmt": stmt, "rc": rc, "stdout": o[-300:], "stderr": e[-300:],
-                                              "case": case_replay_flat(case)},
-                              "%s is not bound in the model but usable on the implementation" % what, True))
+                reached = o.startswith("start")
+                fails.append(("corr-hidden" if reached else "corr-probe",
+                              {"what": what, "stmt": stmt, "rc": rc, "stdout": o[-300:], "stderr": e[-300:],
+                               "case": case_replay_flat(case)},
+                              ("%s is not bound in the model but usable on the implementation" % what) if reached else
+                              ("probe program for %s did not reach main (the model says the imports succeed): rc=%d %s" % (what, rc, first_err(e))),
+                              True))
         return {"runs": runs, "failures": fails, "bindings": len(exp), "negatives": len(neg), "variants": 0}
     finally:
         tree.close()
@@ -837,7 +1201,8 @@ def run_flat_case(impl, case, tab):
 
 def case_replay_flat(case):
     return {"kind": case["kind"], "files": case["files"], "imports": case["imports"], "local": case.get("local", []),
-            "cwd": case.get("cwd", ""), "extra": case.get("extra"), "seed_tag": case.get("seed_tag")}
+            "cwd": case.get("cwd", ""), "extra": case.get("extra"), "seed_tag": case.get("seed_tag"),
+            "import_text": case.get("import_text"), "select": case.get("select")}
 
 
 # ------------------------------------------------------------------ known findings
@@ -882,7 +1247,7 @@ def build_cases(seed, tier):
     cases = []
     # (1) every import DAG over n modules (module i may import j < i), content from the seed
     if tier == "quick":
-        plan = [(1, 3), (2, 4), (3, 4)]            # (n, content seeds per graph)
+        plan = [(1, 6), (2, 12), (3, 16)]          # (n, content seeds per graph)
     else:
         plan = [(1, 4), (2, 6), (3, 8), (4, 6), (5, 2)]
     for n, reps in plan:
@@ -890,6 +1255,13 @@ def build_cases(seed, tier):
             for r in range(reps):
                 prefix = BLIND if (gi + r) % 4 == 3 else ""
                 cases.append(make_graph_case(seed, "dag%d-%d" % (n, gi), r, n, edges, prefix=prefix))
+    # (1b) four modules: the chain 3 -> 2 -> 1 -> 0, the diamond 3 -> {1, 2} -> 0, the diamond with a tail (initialiser
+    #      dependencies through several levels; the program imports only the outer module, or everything in any order)
+    shapes = [("chain4", {(1, 0), (2, 1), (3, 2)}), ("diamond4", {(1, 0), (2, 0), (3, 1), (3, 2)}),
+              ("fan4", {(1, 0), (2, 0), (3, 0)}), ("zigzag4", {(1, 0), (2, 1), (3, 1), (3, 0)})]
+    for nm, edges in shapes:
+        for r in range(12 if tier == "quick" else 60):
+            cases.append(make_graph_case(seed, nm, r, 4, edges, prefix=BLIND if r % 4 == 3 else ""))
     # (2) defect shapes: table agreement only (the model is faithful to the defects), no oracle
     nd = 24 if tier == "quick" else 200
     for k in range(nd):
@@ -919,8 +1291,14 @@ def build_cases(seed, tier):
         for place in ("dotted", "literal", "both", "none"):
             cases.append(make_pathform_case(mp, place))
     # (5) clashes: last import wins, the importer's own definition wins
-    for k in range(20 if tier == "quick" else 300):
+    for k in range(100 if tier == "quick" else 800):
         cases.append(make_clash_case(rng_for(seed, "c18-clash", k), k))
+    # (7) initialisers with side effects: run once, dependencies first
+    for k in range(30 if tier == "quick" else 300):
+        cases.append(make_effects_case(rng_for(seed, "c18-effects", k), k))
+    # (6) selective imports: exactly the listed exported names
+    for k in range(40 if tier == "quick" else 400):
+        cases.append(make_selective_case(rng_for(seed, "c18-selective", k), k))
     return cases
 
 
@@ -966,6 +1344,8 @@ def run(rep):
             if t:                                    # generator bug guard: never feed a defect shape to the oracle
                 c["oracle"] = False
                 c["tripped"] = t
+    effects = [c for c in cases if c["kind"] == "effects"]
+    cases = [c for c in cases if c["kind"] != "effects"]
     tabs = run_model([lines_of(c) for c in cases])
 
     def one(ct):
@@ -975,6 +1355,7 @@ def run(rep):
         return run_flat_case(impl, c, tab)
     results = common.pmap(one, list(zip(cases, tabs)))
     prog_results = [run_program_case(impl, c) for c in programs]
+    eff_results = common.pmap(lambda c: run_effects_case(impl, c), effects)
 
     hist, runs, bindings, negs, variants = {}, 0, 0, 0, 0
     distinct, nontrivial = set(), 0
@@ -993,11 +1374,51 @@ def run(rep):
             if (not tab["ok"]) or any(k not in ("main", "lf_main") for k in tab["F"]) or tab["S"] or tab["E"] or tab["V"]:
                 nontrivial += 1
         allfails += [(c, f) for f in r["failures"]]
+    for c, r in zip(effects, eff_results):
+        hist["effects"] = hist.get("effects", 0) + 1
+        runs += r["runs"]
+        variants += r["variants"]
+        allfails += [(c, f) for f in r["failures"]]
     for c, r in zip(programs, prog_results):
         hist["corpus"] = hist.get("corpus", 0) + 1
         runs += r["runs"]
         variants += r["variants"]
         allfails += [(c, f) for f in r["failures"]]
+    feat = {"graph_cases_with_cross_module_initialiser": 0, "cross_module_initialisers": 0, "initialisers_with_call": 0,
+            "initialisers_reading_transitively_loaded_module": 0, "cases_without_inlined_reference": 0,
+            "cases_program_imports_outer_module_only": 0, "string_variables": 0, "uninitialised_globals": 0}
+    for c in cases:
+        if c["kind"] != "graph":
+            continue
+        mods = c["mods"]
+        loaded = closure(mods, sorted(set(c["base"])))
+        owner = {}
+        for i, m in enumerate(mods):
+            for st in m["stmts"]:
+                if st[0] in ("V", "H", "E"):
+                    owner[st[2]] = i
+        cross = 0
+        for i in loaded:
+            for st in mods[i]["stmts"]:
+                if st[0] == "V" and st[1] and isinstance(st[4], str):
+                    names = [x.rsplit(".", 1)[-1] for x in expr_names(st[4], "$") + expr_names(st[4], "@")] + \
+                            [x.split(":")[0] for x in expr_names(st[4].replace(":", "."), "#")]
+                    others = [owner[x] for x in names if x in owner and owner[x] != i]
+                    if others:
+                        cross += 1
+                        if any(o not in mods[i]["imports"] for o in others):
+                            feat["initialisers_reading_transitively_loaded_module"] += 1
+                    if "@" in st[4]:
+                        feat["initialisers_with_call"] += 1
+                if st[0] == "V" and len(st) > 5:
+                    feat["string_variables"] += 1
+                if st[0] == "V" and st[1] and st[4] is None:
+                    feat["uninitialised_globals"] += 1
+        feat["cross_module_initialisers"] += cross
+        feat["graph_cases_with_cross_module_initialiser"] += 1 if cross else 0
+        feat["cases_without_inlined_reference"] += 1 if c.get("no_inline") else 0
+        feat["cases_program_imports_outer_module_only"] += 1 if len(loaded) > len(set(c["base"])) else 0
+    rep.coverage["features"] = feat
     sample_case = next(c for c in cases if c["kind"] == "graph" and c["n"] >= 2 and c["edges"])
     rep.coverage.update({
         "evaluations": runs, "distinct_nontrivial": nontrivial, "cases": len(cases),
@@ -1005,8 +1426,12 @@ def run(rep):
         "rule": "cases = generated module trees + importing program; evaluations = runs of the real binary; a case is distinct by its "
                 "model input and non-trivial when the model binds at least one imported name or predicts an import error. Per graph case: "
                 "A. main uses every name the extracted model says is bound (first '@' line of each block must carry the model's "
-                "definition id), one undefined-name probe per declared-but-unbound name; B. base program == all permutations == "
-                "duplicated import lists == inlined single file == re-import at run time",
+                "definition id; variables and side-effect-free functions must show the VALUE the model computed for the "
+                "initialiser / body at import time), one undefined-name probe per declared-but-unbound name; B. base program == all "
+                "permutations == duplicated import lists == import lists extended by the modules loaded anyway == inlined single file "
+                "(unless a known single-file defect shape is present: coverage.features.cases_without_inlined_reference) == re-import "
+                "at run time. Clash cases: modules importing each other export the same names, the import statement anywhere among "
+                "the declarations. Selective cases: import m { items } binds exactly the listed exports",
         "exhaustive": True,
         "exhaustive_space": "all import DAGs (module i imports j<i) over n<=%d modules: %s graphs; all permutations of each import list%s; "
                             "search path: %s subsets of the 8 candidate locations" % (
@@ -1044,7 +1469,10 @@ def run(rep):
     rep.assumptions += [
         "the parse-time import path (RecursiveParser::processImport) is not modelled; the tie exercises it on every run together with the run-time path",
         "behavioural equality of imported and inlined definitions (statics included) is tested, the theorem is at table level",
-        "definition identities (AST nodes, initialiser values) are abstract numbers printed by the generated bodies",
+        "definition identities (AST nodes) are abstract numbers printed by the generated bodies; initialiser values are numbers "
+        "(int) or the text s<number> (string)",
+        "selective imports reach the model by translation (the unlisted exports lose `export` in the model's file system); module "
+        "aliases, double/array exports are findings, not generated",
     ]
 
 
@@ -1056,6 +1484,11 @@ def replay(path):
         for f in r["failures"]:
             print("FAIL", f[0], f[2])
         return 1 if r["failures"] else 0
+    if c and c.get("kind") == "effects":
+        r = run_effects_case(common.build_impl("plain"), c)
+        for f in r["failures"]:
+            print("FAIL", f[0], f[2])
+        return 1 if r["failures"] else 0
     if not c:
         print(json.dumps(data["case"], indent=1)[:3000])
         return 1
@@ -1064,7 +1497,7 @@ def replay(path):
     if c["kind"] == "graph":
         case = {"kind": "graph", "mods": [dict(m, stmts=[tuplify(s) for s in m["stmts"]]) for m in c["mods"]], "base": c["base"],
                 "local": [tuplify(s) for s in c["local"]], "defects": c.get("defects") or [], "seed_tag": c["seed_tag"],
-                "n": len(c["mods"]), "edges": []}
+                "n": len(c["mods"]), "edges": [], "prefix": c.get("prefix") or "", "no_inline": c.get("no_inline") or []}
         tab, = run_model([graph_model_lines(case)])
         r = run_graph_case(impl, case, tab, "quick", 1, oracle=not case["defects"])
     else:
